@@ -4,7 +4,9 @@ import (
 	"bytes"
 	"context"
 	"encoding/json"
+	"errors"
 	"fmt"
+	"io"
 	"log/slog"
 	"reflect"
 	"sort"
@@ -18,6 +20,7 @@ import (
 	"go.uber.org/zap/zapcore"
 	"go.uber.org/zap/zaptest/observer"
 
+	"verif/simsync"
 	"verif/zsim"
 )
 
@@ -353,6 +356,9 @@ func (w *c7world) genFields(g *zsim.Stream, id int, allowMut bool, slogOnly bool
 func runC07(c *Ctx) {
 	g, r := c.G, c.R
 	w := &c7world{c: c}
+	simsync.SetPolicy(pick(g, simsync.PoolLIFO, simsync.PoolLIFO, simsync.PoolFIFO, simsync.PoolRandom), uint64(g.Draw(1<<16))+1, 0)
+	guardDone := guardOn(c)
+	defer guardDone()
 	nTasks := 1
 	if g.Chance(3) {
 		nTasks = 2 + g.Draw(2)
@@ -393,6 +399,25 @@ func runC07(c *Ctx) {
 		stackDesc = append(stackDesc, []string{"json", "console", "observer"}[lf.kind])
 		w.leaves = append(w.leaves, lf)
 	}
+	if c.F.Chance(4) {
+		// one more destination whose device fails now and then (write errors,
+		// torn writes): it is not judged, but what happens on its error paths
+		// must not leak into the contexts of the loggers derived afterwards
+		fl := zsim.NewSimSink(r, "flaky", 1, 91)
+		for i := 0; i < 40; i++ {
+			switch c.F.Draw(4) {
+			case 0:
+				fl.WritePlan = append(fl.WritePlan, zsim.Outcome{Short: -1, Err: errors.New("injected write error")})
+			case 1:
+				fl.WritePlan = append(fl.WritePlan, zsim.Outcome{Short: 1 + c.F.Draw(20), Err: errors.New("injected torn write")})
+			default:
+				fl.WritePlan = append(fl.WritePlan, zsim.Outcome{})
+			}
+		}
+		cores = append(cores, zapcore.NewCore(newEncoder(false), zapcore.Lock(fl), zapcore.DebugLevel))
+		stackDesc = append(stackDesc, "flaky-json(not judged)")
+		c.Fault("flaky-destination")
+	}
 	core := zapcore.NewTee(cores...)
 	switch g.Weighted(3, 1, 1, 1, 1) {
 	case 1:
@@ -412,7 +437,7 @@ func runC07(c *Ctx) {
 		core = zapcore.NewLazyWith(core, w.zapFields(w.base))
 		stackDesc = append(stackDesc, "under lazy-with")
 	}
-	root := &c7node{id: 0, how: c7Root, owner: -1, lg: zap.New(core)}
+	root := &c7node{id: 0, how: c7Root, owner: -1, lg: zap.New(core, zap.ErrorOutput(zapcore.AddSync(io.Discard)))}
 	w.nodes = []*c7node{root}
 
 	// ---- program ----
